@@ -230,7 +230,23 @@ fn fault_run(case: &C09Case, tw: &Twin, k: usize, repeated: bool, cnt: &mut Coun
                 if !guard("has_staging", || w.reps[i].m.has_staging())? {
                     return viol("C09", "after a failed commit the staged changes are gone (has_staging() false)".into());
                 }
-                let post = obs(&w.reps[i].m)?;
+                let post = match obs(&w.reps[i].m) {
+                    Err(Fail::Panic { op, msg }) => return viol("C09", format!("after a failed commit (write #{} rejected) the staged state can no longer be read: {} aborts: {}", k, op, msg)),
+                    x => x?,
+                };
+                // every staged value must still be retrievable
+                for o in &post.objects {
+                    let wv = post.winners.get(o).cloned().unwrap_or_default();
+                    if wv.starts_with("ERR") {
+                        continue;
+                    }
+                    match guard("get_value", || w.reps[i].m.get_value(o, Some(&wv))) {
+                        Ok(Ok(_)) => {}
+                        Ok(Err(e)) => return viol("C09", format!("after a failed commit (write #{} rejected) the value of {:?} at {} is no longer retrievable: {}", k, o, wv, e)),
+                        Err(Fail::Panic { op, msg }) => return viol("C09", format!("after a failed commit {} aborts: {}", op, msg)),
+                        Err(f) => return Err(f),
+                    }
+                }
                 if post.doc != pre.doc || post.objects != pre.objects {
                     return viol("C09", format!("a failed commit changed the visible state: {}", first_diff(&pre, &post)));
                 }
